@@ -150,6 +150,6 @@ MANIFEST_ENTRY = {
              "types) under varied PYTHONHASHSEED and feature-gate settings, then compile probe programs that share nothing with the history; "
              "every probe's TEAL must be byte-identical to the TEAL from a fresh process with an empty history, repeated compilation of one "
              "expression or one Router must give one result, and the process globals must be restored after every activity. "
-             "Held = held on the sessions listed."),
+             "Held = held on the sessions listed. Probes include programs built before the history and compiled after it, one object compiled at several versions in turn, names without letters or digits, and literal kinds under assembleConstants next to same-text literals of another kind in the history."),
     "note": "Trusted: nothing beyond CPython; the reference is the compiler itself in a fresh process.",
 }
